@@ -17,6 +17,12 @@ package cose
 // r||s is the two halves of the given signature, and the key is the given key.
 //@ func cose.Sign1.Verify
 //@   params s1 key payload additionalData
+//@   local alg = UnOp#11 | UnOp#24 | UnOp#8 | UnOp#9 | addr:Alloc#2
+//@   local digest = call:hash.Hash.Sum#2
+//@   local err = call:cbor.Encoder.Encode#1 | extract1:call:cose.HeaderMap.Parse#1 | extract1:call:cose.newEmptyOrSerializedMap#1
+//@   local n = BinOp#11
+//@   local protected = extract0:call:cose.newEmptyOrSerializedMap#1
+//@   local pub = extract0:TypeAssert#1 | extract0:TypeAssert#2
 //@   props C13 C10(sweep) C01(functional) C04(functional)
 //@   sweep bounds,panic,make,nilmem
 //@   pure
@@ -46,6 +52,10 @@ package cose
 
 //@ func cose.Sign1.Sign
 //@   params s1 key payload additionalData opts
+//@   local algID = extract0:call:cose.SignatureAlgorithmFor#1
+//@   local body = extract0:call:cose.newEmptyOrSerializedMap#1
+//@   local digest = call:crypto.Hash.New#1
+//@   local sigPayload = Phi#1 | UnOp#2 | call:cbor.NewByteWrap#1
 //@   props C13
 //@   sweep bounds,panic,make,nilmem
 //@   callassert Sign#1: @digest bytes(arg2) == digest(happ(hinit(u(sighash(algID))), Enc(tuple("Signature1", body, tuple(additionalData), *sigPayload))))
@@ -54,6 +64,9 @@ package cose
 // RFC 8152 8.1: r||s, each left-padded to the byte length of the group order
 //@ func cose.RFC8152Signer.Sign
 //@   params key rand digest _
+//@   local err = extract1:call:crypto.Signer.Sign#1 | extract1:call:encoding/asn1.Unmarshal#1
+//@   local n = BinOp#5
+//@   local sigBytes = MakeSlice#1
 //@   props C13
 //@   sweep bounds,panic,make,nilmem
 //@   makelimit 1048576
@@ -79,6 +92,9 @@ package cose
 //@ spec func MacOf(U, U, U, U) U
 //@ func cose.Mac0.Digest
 //@   params m0 alg key payload aad
+//@   local err = call:cbor.Encoder.Encode#1 | extract1:call:cose.MacAlgorithm.NewMac#1 | extract1:call:cose.newEmptyOrSerializedMap#1
+//@   local macPayload = Phi#1 | UnOp#6 | call:cbor.NewByteWrap#1
+//@   local protected = extract0:call:cose.newEmptyOrSerializedMap#1
 //@   props C13 C05(functional)
 //@   sweep bounds,panic,make,nilmem
 //@   requires @registered macregistered(alg)
@@ -183,6 +199,7 @@ package cose
 // decoded: nothing of a previously decoded object survives in a reused variable (C13)
 //@ func cose.Header.UnmarshalCBORStream
 //@   params hdr r o flattened
+//@   local err = call:cbor.Decoder.Decode#1 | call:cbor.Decoder.Decode#2 | call:cbor.Unmarshal#1 | call:cbor.Unmarshal#2
 //@   props C13 C10(sweep)
 //@   sweep bounds,panic,make,nilmem
 //@   invariant loop#1: allochere(hdr.Protected)
